@@ -144,9 +144,7 @@ func (*c03Prop) Gen(r *Rand, pl *Plan) Case {
 		}
 		c.Input = c.G.genInput(r, alphabet, maxLen)
 	}
-	if r.Chance(1, 4) {
-		c.Prefix = r.Range(1, 20)
-	}
+	c.Prefix = genPrefix(r)
 	n := len(c.G.Nodes)
 	reps := r.Range(3, 4)
 	var evs []c03Event
@@ -277,9 +275,33 @@ type c03Obs struct {
 	discard          string
 }
 
+// hugeFile is a file-set entry of arbitrary length without content: it places the parsed
+// file at a large global position (placement in the file set is configuration the
+// simulated history owns; positions are plain ints).
+type hugeFile struct{ n, off int }
+
+func (f *hugeFile) Position(int) parsley.Position { return parsley.NilPosition }
+func (f *hugeFile) Pos(i int) parsley.Pos         { return parsley.Pos(f.off + i) }
+func (f *hugeFile) Len() int                      { return f.n }
+func (f *hugeFile) SetOffset(o int)               { f.off = o }
+
+var hugeSizes = []int{1<<16 - 3, 1 << 20, 1<<20 + 5, 3 << 20, 1 << 24, 1<<31 - 10, 1<<31 + 7, 1<<32 + 1, 1 << 40}
+
+func genPrefix(r *Rand) int {
+	switch {
+	case r.Chance(1, 10):
+		return hugeSizes[r.Intn(len(hugeSizes))]
+	case r.Chance(1, 4):
+		return r.Range(1, 20)
+	}
+	return 0
+}
+
 func newCtx(input string, prefix int) *parsley.Context {
 	fs := parsley.NewFileSet()
-	if prefix > 0 {
+	if prefix > 64 {
+		fs.AddFile(&hugeFile{n: prefix})
+	} else if prefix > 0 {
 		fs.AddFile(text.NewFile("pre", []byte(strings.Repeat("x", prefix))))
 	}
 	f := text.NewFile("in", []byte(input))
